@@ -17,7 +17,7 @@ type c16Case struct {
 	Len   int    `json:"len"`            // residue count
 	Alpha string `json:"alpha"`          // residues are Alpha repeated cyclically
 	Pos   int    `json:"pos,omitempty"`  // mutate: byte offset inside the block
-	Op    string `json:"op,omitempty"`   // mutate: "del", "dup", "set"
+	Op    string `json:"op,omitempty"`   // mutate: "del", "dup", "set", "swap" (with the next byte)
 	Byte  int    `json:"byte,omitempty"` // mutate: replacement byte for "set"
 }
 
@@ -160,6 +160,11 @@ func c16Check(c c16Case) *Violation {
 			mut = append(append([]byte{}, block[:c.Pos]...), block[c.Pos+1:]...)
 		case "dup":
 			mut = append(append(append([]byte{}, block[:c.Pos+1]...), block[c.Pos]), block[c.Pos+1:]...)
+		case "swap":
+			mut = append([]byte{}, block...)
+			if c.Pos+1 < len(mut) {
+				mut[c.Pos], mut[c.Pos+1] = mut[c.Pos+1], mut[c.Pos]
+			}
 		default:
 			mut = append([]byte{}, block...)
 			mut[c.Pos] = byte(c.Byte)
@@ -301,6 +306,7 @@ func TestC16(t *testing.T) {
 		for pos := 0; pos < blockLen; pos++ {
 			for _, m := range []c16Case{
 				{Op: "del"}, {Op: "dup"}, {Op: "set", Byte: ' '}, {Op: "set", Byte: 'x'}, {Op: "set", Byte: '7'}, {Op: "set", Byte: '\n'}, {Op: "set", Byte: '\t'},
+				{Op: "set", Byte: '0'}, {Op: "set", Byte: '+'}, {Op: "set", Byte: '-'}, {Op: "swap"},
 			} {
 				m.Mode, m.Len, m.Alpha, m.Pos = "mutate", n, "acgt", pos
 				if !e4.try(m) {
